@@ -140,7 +140,14 @@ def pqOnOp (s : DS) (toks : List String) : DS × List String :=
       | Option.none => (s, ["obs bad-op"])
     | _, _ => (s, ["obs bad-op"])
   | some "shutdown" => if !alive then (s, ["obs bad-op"]) else finish .shutdown (fun c => showRes c.res)
-  | some "wake" => if !alive then (s, ["obs bad-op"]) else finish .wake (fun c => showRes c.res)
+  | some "wake" =>
+    -- the j-th blocked producer is the one the scheduler lets re-lock the queue first (`promote j`), then it re-checks (`wake`)
+    if !alive then (s, ["obs bad-op"]) else
+    let ce0 := fireE (fireE s.ce (.fail false)) (.op (.promote ((kvNat toks "j").getD 0)))
+    let (ce', died, tags) := runOp ce0 .wake die errs
+    let hi := max s.hi (ce'.base.st.W + 2)
+    ({ s with ce := ce', dropTags := tags ++ s.dropTags, hi := hi, errInjected := s.errInjected || !errs.isEmpty },
+     [obsLine (if died then "died" else showRes ce'.base.res) ce'.base hi])
   | some "cancel" =>
     match kvNat toks "j" with
     | some j => if !alive then (s, ["obs bad-op"]) else finish (.cancel j) (fun c => showRes c.res)
